@@ -237,7 +237,7 @@ def c11_models(tier):
     ms.append(full_model("roll-latency", cs, ["S1", "CH"], g2, ev2, tg[:3], lats=(60,), delays=(0, 1), fees="free", maxsteps=3,
                          **kw))
     if tier != "quick":
-        ms.append(full_model("roll-thr", cs, ["S1", "CH"], grid, ev, tg, lats=(0,), delays=(0,), fees="dy", thr=F(1, 16),
+        ms.append(full_model("roll-thr", cs, ["S1", "CH"], grid, ev, tg, lats=(0,), delays=(0,), fees="free", thr=F(1, 16),
                              maxsteps=6, **kw))
     return ms
 
